@@ -64,15 +64,36 @@ def lean_sources():
             if f.endswith(".lean"): yield os.path.join(base, f)
 
 
-def forbidden_tokens():
+def import_closure(modules):
+    """project-local Lean files reachable from the given modules through `import`"""
+    seen, todo = {}, list(modules)
+    while todo:
+        m = todo.pop()
+        path = os.path.join(LEAN, m.replace(".", "/") + ".lean")
+        if m in seen or not os.path.exists(path): continue
+        seen[m] = path
+        for line in open(path):
+            mm = re.match(r"\s*(?:public\s+)?import\s+(\S+)", line)
+            if mm: todo.append(mm.group(1))
+    return sorted(seen.values())
+
+
+def forbidden_tokens(modules=None):
     hits = []
-    for path in lean_sources():
+    for path in (import_closure(modules) if modules else lean_sources()):
         code = strip_comments(open(path).read())
         for k, line in enumerate(code.split("\n"), 1):
             for pat in FORBIDDEN:
                 if re.search(pat, line):
                     hits.append("%s:%d: %s" % (os.path.relpath(path, ROOT), k, line.strip()))
     return hits
+
+
+def exe_root(target):
+    """root module of a lean_exe target, read from the lakefile"""
+    txt = open(os.path.join(LEAN, "lakefile.toml")).read()
+    m = re.search(r'name\s*=\s*"%s"\s*\nroot\s*=\s*"([^"]+)"' % re.escape(target), txt)
+    return m.group(1) if m else None
 
 
 def theorems_of(module_path):
